@@ -143,7 +143,12 @@ def run(ctx):
             method = "stride"
         if origin == "many-labels":
             method, opts = "majority", {}
-        ds = downscaling.get_downscaler(method, info=None, options=opts)
+        spelled = "auto" if method in ("average", "stride") and rng.random() < 0.5 else method
+        if spelled == "auto":   # the command-line default: resolved by the info's type, same options
+            ds = downscaling.get_downscaler("auto", {"type": "image" if method == "average" else "segmentation"},
+                                            opts)
+        else:
+            ds = downscaling.get_downscaler(method, info=None, options=opts)
         nr = np.random.default_rng(rng.getrandbits(32))
         shape = (C, old["size"][2], old["size"][1], old["size"][0])
         if origin == "many-labels":
@@ -153,7 +158,7 @@ def run(ctx):
         else:
             vol = nr.integers(0, min(int(np.iinfo(dt).max), 2**31), size=shape).astype(dt) \
                 if method != "majority" else nr.integers(0, 4, size=shape).astype(dt)
-        desc = {"origin": origin, "data_type": dt, "channels": C, "method": method, "options": opts,
+        desc = {"origin": origin, "data_type": dt, "channels": C, "method": method, "method_spelling": spelled, "options": opts,
                 "old": {k: old[k] for k in ("size", "chunk_sizes")}, "new": {k: new[k] for k in ("size", "chunk_sizes")}}
         outcomes = []
         for fill in (0xAB, 0x54):
@@ -189,7 +194,12 @@ def run(ctx):
             factors = [1 if a == b else 2 for a, b in zip(old["size"], new["size"])]
             try:
                 with np.errstate(all="ignore"):
-                    want = ds.downscale(vol, factors)
+                    # the selected method applied to the whole level: an object of the method's class built directly
+                    # from the options (not the one the selection code under test handed to the pyramid step)
+                    ref_ds = {"average": lambda: downscaling.AveragingDownscaler(opts.get("outside_value")),
+                              "majority": downscaling.MajorityDownscaler,
+                              "stride": downscaling.StridingDownscaler}[method]()
+                    want = ref_ds.downscale(vol, factors)
             except Exception as exc:  # noqa
                 want = None
             if want is None or want.shape != o0[1].shape:
